@@ -229,11 +229,16 @@ def py_model(spec):
     if spec == 'noop':
         return _noop.model
     cls = NoOp if spec.get('noop') else Model
+    reifs = [(r, py_atom(c), s, t) for r, c, s, t in spec.get('reifs', [])]
+    if len(reifs) % 2 == 1:
+        # the parameter is typed Iterable: an odd-sized table is handed over as a one-shot
+        # generator, an even-sized one as a list (both must build the same model)
+        reifs = (x for x in list(reifs))
     return cls(
         top_variable=spec.get('topVariable', 'top'),
         top_role=spec.get('topRole', ':TOP'),
         concept_role=spec.get('conceptRole', ':instance'),
         roles={pat_regex(p): {} for p in spec.get('roles', [])},
         normalizations=dict((k, v) for k, v in spec.get('norm', [])),
-        reifications=[(r, py_atom(c), s, t) for r, c, s, t in spec.get('reifs', [])],
+        reifications=reifs,
     )
